@@ -99,12 +99,12 @@ Qed.
 Theorem no_displaced_survives x y :
   resolve_displaced_content x = OkR y -> forall g, no_displaced_x g y = true.
 Proof.
-  unfold resolve_displaced_content. destruct (number (S (xsize x)) x 0) as [ix next].
+  unfold resolve_displaced_content. destruct (number (displaced_fuel x) x 0) as [ix next].
   match goal with |- context [bind ?K _] => destruct K as [[ix1 n1]|e] end; [|discriminate]. cbn [bind].
-  destruct (splice_displaced (S (xsize x)) ix1) as [l|e] eqn:E; [|discriminate]. cbn [bind].
+  destruct (splice_displaced (displaced_fuel x) ix1) as [l|e] eqn:E; [|discriminate]. cbn [bind].
   destruct l as [|r [|? ?]]; try discriminate. intros H g. injection H as <-.
-  apply (normalise_text_no_displaced g (S (xsize x))).
-  change (no_displaced_x g (forget (S (xsize x)) r) = true). apply forget_no_displaced.
+  apply (normalise_text_no_displaced g (displaced_fuel x)).
+  change (no_displaced_x g (forget (displaced_fuel x) r) = true). apply forget_no_displaced.
   pose proof (splice_no_displaced _ g _ _ E) as P. cbn [forallb] in P.
   apply andb_true_iff in P as [P _]. exact P.
 Qed.
